@@ -22,7 +22,11 @@ func c19Same(o object.Object, want float64) bool {
 		return false
 	}
 	v := f.Value()
-	return v == want || (v != v && want != want)
+	if v != v || want != want {
+		return v != v && want != want
+	}
+	// equal, and the same zero: -0.0 and 0.0 are different results
+	return v == want && gomath.Signbit(v) == gomath.Signbit(want)
 }
 
 func c19Call(fn func(context.Context, ...object.Object) object.Object, args ...object.Object) (res object.Object, panicked bool) {
